@@ -178,7 +178,7 @@ class RandomShim:
             e = z3.BitVecVal(codes[-1], w)
             for i in range(n - 2, -1, -1):
                 e = z3.If(idx.e == i, z3.BitVecVal(codes[i], w), e)
-            Ctx.cur.solver.add(cell == e)
+            Ctx.cur.add_c(cell == e)
             if isinstance(seq, str):
                 return SymStr([cell])
             return SymInt.from_byte(cell)
@@ -204,3 +204,153 @@ for _n in ("getrandbits", "randrange", "randint", "choice", "uniform", "seed", "
 
 DEFAULT_OVERRIDES["base64"] = Base64Shim
 DEFAULT_OVERRIDES["random"] = RandomShim
+
+
+# ----------------------------------------------------------------------------------------------------------------------
+# mappings with symbolic keys
+# ----------------------------------------------------------------------------------------------------------------------
+
+
+def key_eq(a, b):
+    """bool/SymBool: are two mapping keys equal (Python == semantics on the symbolic layer)"""
+    from . import values as V
+
+    return V.compare("==", a, b)
+
+
+class SymOrderedDict:
+    """OrderedDict / dict with possibly symbolic keys: association list, lookups fork on key equality.
+    A repeated key keeps its first position and takes the last value (dict semantics)."""
+
+    __symx_model__ = True
+
+    def __init__(self, *a, **kw):
+        self.pairs = []
+        if a:
+            src = a[0]
+            it = src.items() if hasattr(src, "items") else src
+            for k, v in it:
+                self[k] = v
+        for k, v in kw.items():
+            self[k] = v
+
+    def _find(self, k):
+        for i, (k2, _) in enumerate(self.pairs):
+            if truth(key_eq(k, k2)):
+                return i
+        return -1
+
+    def __setitem__(self, k, v):
+        i = self._find(k)
+        if i >= 0:
+            self.pairs[i] = (self.pairs[i][0], v)
+        else:
+            self.pairs.append((k, v))
+
+    def __getitem__(self, k):
+        i = self._find(k)
+        if i < 0:
+            raise KeyError(k if not is_sym(k) else "<symbolic>")
+        return self.pairs[i][1]
+
+    def __delitem__(self, k):
+        i = self._find(k)
+        if i < 0:
+            raise KeyError("<key>")
+        del self.pairs[i]
+
+    def get(self, k, default=None):
+        i = self._find(k)
+        return default if i < 0 else self.pairs[i][1]
+
+    def __contains__(self, k):
+        return self._find(k) >= 0
+
+    def __len__(self):
+        return len(self.pairs)
+
+    def __iter__(self):
+        return iter([k for k, _ in self.pairs])
+
+    def keys(self):
+        return [k for k, _ in self.pairs]
+
+    def values(self):
+        return [v for _, v in self.pairs]
+
+    def items(self):
+        return list(self.pairs)
+
+    def setdefault(self, k, d=None):
+        i = self._find(k)
+        if i < 0:
+            self.pairs.append((k, d))
+            return d
+        return self.pairs[i][1]
+
+    def update(self, other=(), **kw):
+        it = other.items() if hasattr(other, "items") else other
+        for k, v in it:
+            self[k] = v
+        for k, v in kw.items():
+            self[k] = v
+
+    def copy(self):
+        return SymOrderedDict(self.pairs)
+
+    def __repr__(self):
+        return "SymOrderedDict(%r)" % (self.pairs,)
+
+
+class SymMappingProxy:
+    """types.MappingProxyType over a SymOrderedDict: read-only view"""
+
+    __symx_model__ = True
+
+    def __init__(self, m):
+        if not isinstance(m, (SymOrderedDict, dict)):
+            raise TypeError("mappingproxy() argument must be a mapping")
+        self._m = m
+
+    def __getitem__(self, k):
+        return self._m[k]
+
+    def __setitem__(self, k, v):
+        raise TypeError("'mappingproxy' object does not support item assignment")
+
+    def __delitem__(self, k):
+        raise TypeError("'mappingproxy' object does not support item deletion")
+
+    def get(self, k, default=None):
+        return self._m.get(k, default)
+
+    def __contains__(self, k):
+        return k in self._m
+
+    def __len__(self):
+        return len(self._m)
+
+    def __iter__(self):
+        return iter(self._m)
+
+    def keys(self):
+        return self._m.keys()
+
+    def values(self):
+        return self._m.values()
+
+    def items(self):
+        return self._m.items()
+
+    def copy(self):
+        return self._m.copy()
+
+
+def sym_dict_get(d, key, default=None, strict=False):
+    """lookup of a possibly symbolic key in a real dict: forks on equality with each key in order"""
+    for k, v in d.items():
+        if truth(key_eq(key, k)):
+            return v
+    if strict:
+        raise KeyError("<symbolic key>")
+    return default
